@@ -336,24 +336,60 @@ func runC15(c *Ctx) {
 	}
 	c.Check(nFalse >= 1 && okRef, "C15.5", key, setF.Decl.Pos(), "return false only where the victim search found no clean entry", "set can refuse an insertion on a path other than 'no clean entry found' (or never refuses)")
 	// ---- C15.6
-	if sc := c.NeedFunc("C15.6", "storage.(*fileStore).setCache"); sc != nil {
-		okErr := false
-		inspectBody(sc.Decl.Body, func(x ast.Node) bool {
-			if ifs, ok := x.(*ast.IfStmt); ok {
-				if u, ok := ast.Unparen(ifs.Cond).(*ast.UnaryExpr); ok && u.Op == token.NOT {
-					if call, ok := ast.Unparen(u.X).(*ast.CallExpr); ok && sc.CallIs(call, "storage.LRUCache.set") {
-						ast.Inspect(ifs.Body, func(y ast.Node) bool {
-							if id, ok := y.(*ast.Ident); ok && id.Name == "ErrLRUCacheFull" {
-								okErr = true
-							}
-							return true
-						})
-					}
-				}
+	// refusalSurfaced: in fn, on the edge where LRUCache.set reported false every return carries
+	// ErrLRUCacheFull; however the test is written (`if !set {return Err}`, `if set {return nil}; return Err`, …)
+	refusalSurfaced := func(fn *Func) (decided, okErr bool) {
+		sg := fn.Graph()
+		for _, b := range sg.c.Blocks {
+			if !sg.Reachable(b) || len(b.Succs) != 2 {
+				continue
 			}
-			return true
-		})
-		c.Check(okErr, "C15.6", sc.Name+"|refusal-to-error", sc.Decl.Pos(), "a refused insertion becomes ErrLRUCacheFull", "setCache does not turn a refused insertion into ErrLRUCacheFull")
+			info, ok := sg.EdgeInfo(b, 0)
+			if !ok || info.Case {
+				continue
+			}
+			cond, refusedSucc := ast.Unparen(info.Cond), 1
+			if u, ok := cond.(*ast.UnaryExpr); ok && u.Op == token.NOT {
+				cond, refusedSucc = ast.Unparen(u.X), 0
+			}
+			call, ok := cond.(*ast.CallExpr)
+			if !ok || !fn.CallIs(call, "storage.LRUCache.set") {
+				continue
+			}
+			if !decided {
+				decided, okErr = true, true
+			}
+			start := Loc{b.Succs[refusedSucc], -1}
+			reached := false
+			sg.Forward(&start, nil, func(nn ast.Node, at Loc) Verdict {
+				if r, ok := nn.(*ast.ReturnStmt); ok {
+					reached = true
+					isFull := false
+					if len(r.Results) >= 1 {
+						if id, ok := ast.Unparen(r.Results[len(r.Results)-1]).(*ast.Ident); ok && id.Name == "ErrLRUCacheFull" {
+							isFull = true
+						}
+					}
+					if !isFull {
+						okErr = false
+					}
+					return Cut
+				}
+				return Go
+			}, func(bb *cfg.Block) Verdict { okErr = false; return Cut })
+			if !reached {
+				okErr = false
+			}
+		}
+		return
+	}
+	if sc := c.W.F("storage.(*fileStore).setCache"); sc != nil {
+		decided, okErr := refusalSurfaced(sc)
+		if !decided {
+			c.Undecided("C15.6", sc.Name+"|refusal-to-error", "LRUCache.set's result is not tested directly in setCache: which edge returns ErrLRUCacheFull is not decided")
+		} else {
+			c.Check(okErr, "C15.6", sc.Name+"|refusal-to-error", sc.Decl.Pos(), "a refused insertion becomes ErrLRUCacheFull", "setCache does not turn a refused insertion into ErrLRUCacheFull")
+		}
 		for _, cs := range c.W.CG().In[sc] {
 			key := cs.Caller.Name + "|setCache-error"
 			body := cs.Caller.EnclosingBody(cs.Call)
@@ -362,6 +398,25 @@ func runC15(c *Ctx) {
 			} else {
 				c.Fail("C15.6", key, cs.Call.Pos(), "the cache-full error is dropped (%s): the caller continues with a page that is not in the cache and its changes are never flushed", how)
 			}
+		}
+	} else {
+		// no wrapper: every caller of LRUCache.set outside the cache surfaces the refusal itself
+		n := 0
+		for _, cs := range c.W.CG().In[setF] {
+			if strings.HasPrefix(cs.Caller.Name, "storage.(*LRUCache).") {
+				continue
+			}
+			n++
+			key := cs.Caller.Name + "|refusal-to-error"
+			decided, okErr := refusalSurfaced(cs.Caller)
+			if !decided {
+				c.Fail("C15.6", key, cs.Call.Pos(), "%s ignores the result of LRUCache.set: a refused insertion goes unnoticed, the page is not in the cache and its changes are never flushed", cs.Caller.Name)
+			} else {
+				c.Check(okErr, "C15.6", key, cs.Call.Pos(), "a refused insertion becomes ErrLRUCacheFull", cs.Caller.Name+" does not turn a refused insertion into ErrLRUCacheFull")
+			}
+		}
+		if n == 0 {
+			c.Undecided("C15.6", "subjects", "neither setCache nor a direct caller of LRUCache.set found")
 		}
 	}
 	if c.Prop == "C15" {
@@ -415,7 +470,7 @@ func runC16(c *Ctx) {
 				}
 				// registered before returned: every success return after the read passes setCache
 				miss, _ := g.Forward(&rl, g.SuccessEdges, func(nn ast.Node, at Loc) Verdict {
-					if g.containsCall(nn, "storage.fileStore.setCache") != nil {
+					if g.containsCall(nn, "storage.fileStore.setCache", "storage.LRUCache.set") != nil { // directly or through the wrapper
 						return Cut
 					}
 					if r, ok := nn.(*ast.ReturnStmt); ok {
@@ -492,7 +547,7 @@ func runC16(c *Ctx) {
 				c.OK("C16.5", key, sel.Pos(), 1, "owner method")
 			} else if ff.Name == "storage.(*fileStore).flushPages" {
 				// iteration only
-				if rs, ok := enclosingLoop(ff.Decl.Body, sel).(*ast.RangeStmt); ok && rs != nil || isRangeOperand(ff, sel) {
+				if rs, ok := enclosingLoop(ff.Decl.Body, sel).(*ast.RangeStmt); ok && rs != nil || isRangeOperand(ff, sel) || isLenOperand(ff, sel) {
 					c.OK("C16.5", key, sel.Pos(), 1, "the flush iterates the map (no lookup, no registration)")
 				} else {
 					c.Fail("C16.5", key, sel.Pos(), "the flush uses the cache representation other than by iterating it")
@@ -662,4 +717,18 @@ func removeReachableWhenDirty(f *Func, g *Graph, victim types.Object, target Loc
 		}
 	}
 	return false, cached, tested
+}
+
+// isLenOperand: the selector is the operand of len(): a read of the size, no lookup and no registration.
+func isLenOperand(f *Func, sel *ast.SelectorExpr) bool {
+	found := false
+	ast.Inspect(f.Decl.Body, func(x ast.Node) bool {
+		if call, ok := x.(*ast.CallExpr); ok && len(call.Args) == 1 && ast.Unparen(call.Args[0]) == ast.Expr(sel) {
+			if id, ok := call.Fun.(*ast.Ident); ok && id.Name == "len" {
+				found = true
+			}
+		}
+		return true
+	})
+	return found
 }
